@@ -63,7 +63,8 @@ def _cases(draw):
     defs = [print_ast(n) for n in parse(sdl).definitions]
     k = d.int(1, min(6, len(defs)))
     # same base names in different sub-directories, sibling directories, nesting
-    names = d.shuffle(["a", "b", "types/c", "types/inputs/d", "z", "m/n", "m/a", "types/a", "other/c", "types/inputs/b"])[:k]
+    names = d.shuffle(["a", "b", "types/c", "types/inputs/d", "z", "m/n", "m/a", "types/a", "other/c", "types/inputs/b",
+                       ".shared/e", "types/.private/f"])[:k]
     tree = {}
     assign = [d.int(0, k - 1) for _ in defs]
     for i, text in enumerate(defs):
@@ -71,6 +72,11 @@ def _cases(draw):
     tree = {n + d.choice([".graphql", ".graphqls", ".gql"]): "\n\n".join(v) + "\n" for n, v in tree.items()}
     if len(tree) >= 3 and any("/" in n for n in tree):
         d.tag("tree.multi_subdir")
+    if any(part.startswith(".") for n in tree for part in n.split("/")[:-1]):
+        d.tag("tree.dot_named_directory")
+    tree_root = d.weighted([(5, "schema_tree"), (1, ".work/schema_tree"), (1, "deep/../schema_tree")])
+    if tree_root != "schema_tree":
+        d.tag("tree.root_with_dot_component")
     bases = [os.path.basename(n) for n in tree]
     if len(set(bases)) < len(bases):
         d.tag("tree.same_basename_in_two_dirs")
@@ -81,7 +87,7 @@ def _cases(draw):
     if d.bool(0.5):
         headers = {"Authorization": "$VF_TOKEN", "X-Plain": "v"}
         d.tag("intro.headers")
-    return {"kind": "deliveries", "sdl": sdl, "queries": queries, "config": cfg, "tree": tree, "headers": headers,
+    return {"kind": "deliveries", "sdl": sdl, "queries": queries, "config": cfg, "tree": tree, "tree_root": tree_root, "headers": headers,
             "verify": d.bool(0.5), "ops": [{"name": o["name"], "kind": o["kind"], "vars": o["vars"]} for o in ops],
             "features": sorted(d.features)}
 
@@ -129,12 +135,13 @@ def gen_child(case, scratch, delivery):
                     fh.write(case["sdl"])
                 cfg["schema_path"] = "schema_one.graphql"
             elif delivery == "dir":
+                root = case.get("tree_root", "schema_tree")
                 for rel, text in case["tree"].items():
-                    path = os.path.join(scratch, "schema_tree", rel)
+                    path = os.path.join(scratch, root, rel)
                     os.makedirs(os.path.dirname(path), exist_ok=True)
                     with open(path, "w", encoding="utf-8") as fh:
                         fh.write(text)
-                cfg["schema_path"] = "schema_tree"
+                cfg["schema_path"] = root
             else:
                 source = build_schema(case["sdl"])
                 cfg["remote_schema_url"] = "http://schema.test/graphql"
